@@ -491,7 +491,20 @@ def main():
                 log("model evaluation failed for %s: %s" % (fam, model_err[-600:]))
             spec_fail = sorted(i for i, v in spec_res.items() if v & 2)
             # invariants the harness checks by itself (outside the model)
-            inv_fail = [i for i, c in enumerate(cases) if c.get("invariant")]
+            inv_all = [i for i, c in enumerate(cases) if c.get("invariant")]
+            inv_fail, inv_known = [], {}
+            for i in inv_all:
+                cls = cases[i].get("invariant_kf")
+                kf = next((x for x in known if cls and x.get("family") == fam and x.get("invariant_class") == cls), None)
+                if kf is not None:
+                    inv_known.setdefault(kf["id"], []).append(i)
+                else:
+                    inv_fail.append(i)
+            for kid, idxs in inv_known.items():
+                kf = next(x for x in known if x["id"] == kid)
+                c = min((cases[i] for i in idxs[:200]), key=lambda c: len(json.dumps(c["input"])))
+                known_lines.append("KNOWN-FINDING: property=%s %s (%s; %d case(s) this run, e.g. %s)" % (
+                    pid, kid, kf["what"], len(idxs), json.dumps(c["input"])[:300]))
             if inv_fail:
                 c = min((cases[i] for i in inv_fail[:200]), key=lambda c: len(json.dumps(c["input"])))
                 rp = write_replay(pid, fam, {"property": pid, "family": fam, "input": c["input"], "observed": c.get("observed"),
